@@ -297,6 +297,8 @@ E2E_GENOMES = {
     "g1": {"W": 4, "chroms": [("c", ["AAAA", "GCAA", "GGCC", "ACGA", "NNNA", "ATTA", "GCGC", "AGCT"], "AT"), ("d", ["CGAT", "TTAA", "GGGC"], "")]},
     "g3": {"W": 4, "chroms": [("c", ["AAAA", "GAAA", "GCAA", "GGCA", "GGCC", "NNAA", "ATTA", "CGAT"], "AT"), ("d", ["TTAG", "GGGC"], "C")]},
     "g2": {"W": 4, "chroms": [("c", ["GATC", "AAAT", "CCGG", "NATA", "GTAC", "TATA"], "A")]},
+    # wide tiles (125): N fractions 13/125 = 0.104 and 12/125 = 0.096 straddle max_n_perc = 0.1 only at the third decimal
+    "g4": {"W": 125, "chroms": [("c", ["A" * 125, "N" * 13 + "A" * 112, "T" * 60 + "N" * 12 + "A" * 53, "AT" * 62 + "A", "N" * 14 + "T" * 111], "AT")]},
 }
 
 
@@ -698,6 +700,12 @@ def configs(tier):
     cf.append(dict(kind="e2e", genome="g2", loci=[("c", "sym"), ("c", 17, 19), ("c", 21, 23)], max_len=3))
     sig2 = {"c": [1, 1, 1, 1, 0, 2, 1, 0, 3, 0, 1, 2, 1, 0, 0, 4, 0, 1, 1, 3, 2, 1, 0, 1, 2]}
     cf.append(dict(kind="e2e", genome="g2", loci=[("c", "sym"), ("c", 9, 10)], signal=sig2, out_window=2, beta=0.75, max_len=2))
+    # in_window - out_window odd: the centred out_window starts (in - out) // 2 bases into the tile
+    sig3 = {"c": [0, 1, 0, 0, 3, 0, 0, 0, 0, 1, 0, 0, 2, 0, 0, 0, 0, 0, 0, 1, 4, 0, 0, 0, 0]}
+    cf.append(dict(kind="e2e", genome="g2", loci=[("c", "sym"), ("c", 9, 10)], signal=sig3, out_window=3, beta=1.0, max_len=2))
+    cf.append(dict(kind="e2e", genome="g2", loci=[("c", "sym"), ("c", 1, 2)], signal=sig3, out_window=1, beta=1.0, max_len=2))
+    # wide tiles: demand (3 loci in one tile) exceeds the eligible background, so every tile with N fraction <= 0.1 is returned - and no other
+    cf.append(dict(kind="e2e", genome="g4", loci=[("c", "sym"), ("c", 10, 20), ("c", 30, 50), ("c", 60, 70)], max_n_perc=0.1, max_len=3))
     if not q:
         cf.append(dict(kind="e2e", genome="g1", loci=[("c", "sym"), ("d", 5, 7)], chroms=["c", "d"], max_len=5))
         cf.append(dict(kind="e2e", genome="g3", loci=[("c", "sym"), ("c", "sym")], gc_bin_width=0.25, max_len=4))
